@@ -90,32 +90,28 @@ func (e *Engine) isMatchNFA(haystack []byte) bool {
 
 	// Use prefilter for skip-ahead if available
 	if e.prefilter != nil {
-		at := 0
-		for at < len(haystack) {
-			// Find next candidate position via prefilter
-			pos := e.prefilter.Find(haystack, at)
-			if pos == -1 {
-				return false // No more candidates
-			}
-			atomic.AddUint64(&e.stats.PrefilterHits, 1)
-
-			// Try to match at candidate position
-			// Prefer BoundedBacktracker for small inputs (2-3x faster)
-			var found bool
-			if useBT && e.boundedBacktracker.CanHandle(len(haystack)-pos) {
-				_, _, found = e.boundedBacktracker.SearchAtWithState(haystack, pos, state.backtracker)
-			} else {
-				_, _, found = state.pikevm.SearchAt(haystack, pos)
-			}
-			if found {
-				return true
-			}
-
-			// Move past this position
-			atomic.AddUint64(&e.stats.PrefilterMisses, 1)
-			at = pos + 1
+		// Skip ahead to the first candidate and search from there. Both engines
+		// search unanchored: they try every start position from the candidate to
+		// the end of the haystack, so this one search decides the whole query.
+		// Retrying from each later candidate would rescan the same tail every
+		// time - O(n^2) on inputs dense in candidates that do not match.
+		pos := e.prefilter.Find(haystack, 0)
+		if pos == -1 {
+			return false // No candidates
 		}
-		return false
+		atomic.AddUint64(&e.stats.PrefilterHits, 1)
+
+		// Prefer BoundedBacktracker for small inputs (2-3x faster)
+		var found bool
+		if useBT && e.boundedBacktracker.CanHandle(len(haystack)-pos) {
+			_, _, found = e.boundedBacktracker.SearchAtWithState(haystack, pos, state.backtracker)
+		} else {
+			_, _, found = state.pikevm.SearchAt(haystack, pos)
+		}
+		if !found {
+			atomic.AddUint64(&e.stats.PrefilterMisses, 1)
+		}
+		return found
 	}
 
 	// No prefilter: use BoundedBacktracker if available, else PikeVM
